@@ -281,6 +281,7 @@ PROPS["C11"] = dict(
     assumptions=["an Ask may fail for any reason; only wrong/empty/truncated successes and late returns are violations"],
     subs=[
         R("C11.mem_stacks", "swarms", "TestC11Mem", 240, 10000, shrink=10, quick=dict(checks=240, shards=4, timeout=600)),
+        R("C11.ask_storm", "swarms", "TestC11AskStorm", 48, 3000, shrink=8, quick=dict(shards=4, timeout=600)),
         R("C11.mbapp_reply_origin", "swarms", "TestC11MbappReplyOrigin", 200, 10000, shrink=10),
         R("C11.mux_channels", "swarms", "TestC11MuxChannels", 300, 15000, quick=dict(shards=2, timeout=600)),
         R("C11.quic_ssh_stacks", "swarms", "TestC11Net", 32, 1200, shrink=10, quick=dict(checks=32, shards=4, timeout=600)),
